@@ -40,3 +40,118 @@ pub fn spec(offset: usize, log_num_of_bits: usize, log_bytes_in_region: usize) -
 pub fn stub_format(_args: core::fmt::Arguments<'_>) -> String {
     String::new()
 }
+
+// ---------------------------------------------------------------------------------------------
+// E3/E5: the global MMAPPER is a harness object (installed through VERIF_MMAPPER_FACTORY before
+// first use).  `is_mapped_address` answers from up to three `[lo, hi)` ranges set by the harness;
+// mapping requests are recorded in a ghost log and succeed or fail as the harness decides.
+
+use mmtk::util::os::{HugePageSupport, MmapAnnotation, MmapProtection, MmapResult};
+use mmtk::verif_export::heap::{Mmapper, VERIF_MMAPPER_FACTORY};
+
+pub static mut MAPPED: [(usize, usize); 3] = [(0, 0); 3];
+pub static mut MMAP_LOG: [(usize, usize); 8] = [(0, 0); 8];
+pub static mut MMAP_LOG_N: usize = 0;
+
+pub struct HMmapper;
+
+fn log_map(start: Address, bytes: usize) {
+    unsafe {
+        if MMAP_LOG_N < 8 {
+            MMAP_LOG[MMAP_LOG_N] = (start.as_usize(), bytes);
+        }
+        MMAP_LOG_N += 1;
+    }
+}
+
+impl Mmapper for HMmapper {
+    fn log_granularity(&self) -> u8 {
+        22
+    }
+    fn log_mappable_bytes(&self) -> u8 {
+        48
+    }
+    fn mark_as_mapped(&self, start: Address, bytes: usize) {
+        log_map(start, bytes)
+    }
+    fn quarantine_address_range(&self, start: Address, pages: usize, _h: HugePageSupport, _a: &MmapAnnotation) -> MmapResult<()> {
+        log_map(start, pages << 12);
+        Ok(())
+    }
+    fn quarantine_address_range_anywhere(&self, _pages: usize, _align: Option<usize>, _h: HugePageSupport, _a: &MmapAnnotation) -> MmapResult<Address> {
+        unimplemented!()
+    }
+    fn quarantine_address_range_preferred(&self, _start: Address, _pages: usize, _align: Option<usize>, _h: HugePageSupport, _a: &MmapAnnotation) -> MmapResult<Address> {
+        unimplemented!()
+    }
+    fn ensure_mapped(&self, start: Address, pages: usize, _h: HugePageSupport, _p: MmapProtection, _a: &MmapAnnotation) -> MmapResult<()> {
+        log_map(start, pages << 12);
+        Ok(())
+    }
+    fn is_mapped_address(&self, addr: Address) -> bool {
+        let a = addr.as_usize();
+        unsafe { (a >= MAPPED[0].0 && a < MAPPED[0].1) || (a >= MAPPED[1].0 && a < MAPPED[1].1) || (a >= MAPPED[2].0 && a < MAPPED[2].1) }
+    }
+}
+
+fn make_mmapper() -> Box<dyn Mmapper> {
+    Box::new(HMmapper)
+}
+
+/// Must run before the first use of the global MMAPPER.
+pub fn install_mmapper() {
+    unsafe {
+        VERIF_MMAPPER_FACTORY = Some(make_mmapper);
+    }
+    // Force the lazy initialisation now, on a concrete path: if the first use happened under a
+    // symbolic branch, the `Once` state would become symbolic and every later access would
+    // re-explore the initialisation.
+    let _ = mmtk::verif_export::heap::MMAPPER.granularity();
+}
+
+// ---------------------------------------------------------------------------------------------
+// E2: window memory.  Plain `Address::load` of code that scans tables in loops is redirected (Kani
+// stub) to a static buffer addressed by offset from a *concrete* base, which the solver handles as
+// an array read instead of a dereference of an integer-derived pointer.  Natively there is no
+// stub: the base is the buffer's real address and the real `Address::load` reads the same bytes.
+
+pub const SWIN_LEN: usize = 64;
+#[repr(C, align(64))]
+pub struct SWin(pub [u8; SWIN_LEN]);
+pub static mut SWIN: SWin = SWin([0; SWIN_LEN]);
+
+pub fn swin_base() -> usize {
+    #[cfg(kani)]
+    {
+        0x6000_0000_0000
+    }
+    #[cfg(not(kani))]
+    {
+        unsafe { SWIN.0.as_ptr() as usize }
+    }
+}
+
+/// Install the base so that the table slice of `spec` for data starting at `data_base` is SWIN.
+pub fn swin_install(spec: &SideMetadataSpec, data_base: usize) {
+    let ratio = 3 + spec.log_bytes_in_region as isize - spec.log_num_of_bits as isize;
+    let rel = if ratio >= 0 { data_base >> ratio } else { data_base << (-ratio) };
+    set_side_base(swin_base() - spec.offset - rel);
+}
+
+#[cfg(kani)]
+pub unsafe fn stub_addr_load<T: Copy>(a: Address) -> T {
+    let off = a.as_usize().wrapping_sub(swin_base());
+    kani::assert(off < SWIN_LEN && off + core::mem::size_of::<T>() <= SWIN_LEN, "load outside the metadata window");
+    core::ptr::read_unaligned(SWIN.0.as_ptr().add(off) as *const T)
+}
+#[cfg(not(kani))]
+pub unsafe fn stub_addr_load<T: Copy>(a: Address) -> T {
+    a.load::<T>()
+}
+
+/// Stub for `Address::is_mapped` (E3): answers from the MAPPED ranges without going through the
+/// global MMAPPER object.
+pub fn stub_is_mapped(a: Address) -> bool {
+    let a = a.as_usize();
+    unsafe { a != 0 && ((a >= MAPPED[0].0 && a < MAPPED[0].1) || (a >= MAPPED[1].0 && a < MAPPED[1].1) || (a >= MAPPED[2].0 && a < MAPPED[2].1)) }
+}
